@@ -105,14 +105,94 @@ pub fn run(tier: Tier) -> i32 {
         }
         rep.eval(n as u64);
     });
+    let n_sharing = sharing(&rep, &scratch, tier, &keys_total);
+    rep.count("sharing_projects", n_sharing);
     rep.nontriv(strings.len() as u64);
     rep.count("single_scalar_strings", n_single as u64);
     rep.sample(json!({"strings": strings.iter().skip(0x20).take(4).collect::<Vec<_>>()}));
     rep.sample(json!({"strings": strings.iter().skip(n_single).take(4).map(|s| s.escape_unicode().to_string()).collect::<Vec<_>>()}));
     let mut cov = serde_json::Map::new();
-    cov.insert("rule".into(), json!(format!("every Unicode scalar value as a one-character translation (quick: all below U+3000, every 7th above, surrogate-gap and plane-16 edges; thorough: all 1 112 064), all 196 two-character strings over {:?} and 14 four-character mixes, {chunk} per project; layouts: two locales (reversed assignment, explicit nulls, interpolations repeating the string) and nested subkeys + two namespaces + a cross-namespace foreign key duplicating strings; JSON build also writes every non-ASCII char as \\\\uXXXX escapes (surrogate pairs); oracle: every Literal::String(s,i) reachable from a locale's keys has i < strings.len() and strings[i]==s, top_locale_string_count==strings.len() in the top locale and every nested sub-locale, table of en == the literal set, rendered text == source", NASTY.iter().map(|c| c.escape_unicode().to_string()).collect::<Vec<_>>())));
+    cov.insert("rule".into(), json!(format!("every Unicode scalar value as a one-character translation (quick: all below U+3000, every 7th above, surrogate-gap and plane-16 edges; thorough: all 1 112 064), all 196 two-character strings over {:?} and 14 four-character mixes, {chunk} per project; plus every assignment of {{3 shared strings, an interpolation built from two of them, null}} to 2 keys (one nested) in 3 locales (thorough: 4), with and without an inherits entry, with one or two namespaces (the same literal in several locales, in several keys, across namespaces); layouts: two locales (reversed assignment, explicit nulls, interpolations repeating the string) and nested subkeys + two namespaces + a cross-namespace foreign key duplicating strings; JSON build also writes every non-ASCII char as \\\\uXXXX escapes (surrogate pairs); oracle: every Literal::String(s,i) reachable from a locale's keys has i < strings.len() and strings[i]==s, top_locale_string_count==strings.len() in the top locale and every nested sub-locale, table of en == the literal set, rendered text == source", NASTY.iter().map(|c| c.escape_unicode().to_string()).collect::<Vec<_>>())));
     cov.insert("exhaustive".into(), json!(tier == Tier::Thorough));
     cov.insert("front_end".into(), json!(build_format().name()));
     cov.insert("key_locale_comparisons".into(), json!(*keys_total.lock().unwrap()));
     rep.finish(cov, &["file written by the build helper and generated-code sizes are decided by the vbuild / L2 engines of this check"])
+}
+
+
+/// Every way literal text can be shared between keys, locales and namespaces: each (locale, key)
+/// slot takes one of 5 values over a 3-string alphabet. The generic judge checks every index
+/// against the table of the locale it belongs to and the rendered text of every key.
+fn sharing(rep: &Reporter, scratch: &Scratch, tier: Tier, keys_total: &Mutex<u64>) -> u64 {
+    let value = |d: usize| -> Val {
+        match d {
+            0 => st("A"),
+            1 => st("B"),
+            2 => st("C"),
+            3 => s(vec![text("A"), var("x"), text("B")]),
+            _ => Val::Null,
+        }
+    };
+    let locale_sets: Vec<Vec<&str>> = if tier == Tier::Thorough { vec![vec!["en", "fr", "de"], vec!["en", "fr", "de", "it"]] } else { vec![vec!["en", "fr", "de"]] };
+    let mut jobs = vec![];
+    for (si, locs) in locale_sets.iter().enumerate() {
+        let slots = locs.len() * 2;
+        // 4 locales: the default's two slots are fixed to keep the space at 5^6
+        let free = slots.min(6);
+        for inh in 0..2 {
+            for ns in 0..2 {
+                jobs.push((si, free, inh, ns));
+            }
+        }
+    }
+    let total = Mutex::new(0u64);
+    for (si, free, inh, ns) in jobs {
+        let locs = &locale_sets[si];
+        let combos = vmodel::enumerate::tuples(5, free);
+        par_for(combos.len(), |w, i| {
+            let t = &combos[i];
+            let nl = locs.len();
+            // slot (locale li, key ki): the last `free` slots vary, the leading ones (default locale when 4 locales) are "A","B"
+            let fixed = nl * 2 - free;
+            let digit = |li: usize, ki: usize| -> usize {
+                let idx = li * 2 + ki;
+                if idx < fixed {
+                    idx % 2
+                } else {
+                    t[idx - fixed]
+                }
+            };
+            // the default locale defines every key
+            if (0..2).any(|ki| digit(0, ki) == 4) {
+                return;
+            }
+            let mut cfg = Config::simple("en", locs);
+            if inh == 1 {
+                cfg = cfg.with_inherits(&[(locs[nl - 1], locs[1])]);
+            }
+            if ns == 1 {
+                cfg = cfg.with_namespaces(&["a", "b"]);
+            }
+            let mut p = Project::new(cfg);
+            for (li, l) in locs.iter().enumerate() {
+                let k1 = ("k1".to_string(), value(digit(li, 0)));
+                let k2 = ("g".to_string(), Val::Sub(vec![("k2".to_string(), value(digit(li, 1))), ("same".to_string(), st("A"))]));
+                if ns == 1 {
+                    p.set_file(Some("a"), l, vec![k1, ("other".to_string(), st("B"))]);
+                    p.set_file(Some("b"), l, vec![k2]);
+                } else {
+                    p.set_file(None, l, vec![k1, k2]);
+                }
+            }
+            let co = CheckOpts { counts: None, write: WriteOpts { format: build_format(), ascii_only: false } };
+            let (e, _o) = check_project_opts(rep, "C11", "sharing", &p, &scratch.worker(w), keys_total, co);
+            if e != Expect::Accept {
+                vmodel::report::machinery_fail(&format!("C11 sharing project not acceptable to the model: {e:?} {}", p.describe()));
+            }
+            rep.eval(1);
+            *total.lock().unwrap() += 1;
+        });
+    }
+    let n = *total.lock().unwrap();
+    n
 }
